@@ -261,6 +261,11 @@ def option_variants(name, data, rng):
     E = np.eye(d)
     B = np.array([E[i] - E[j] for i in range(d) for j in range(d) if i != j])
     out.append(dict(basis=B / np.linalg.norm(B, axis=1)[:, None], n_basis=None))
+  if name in ('SCML', 'SCML_Supervised') and d >= 2:
+    # a dictionary of coordinate axes held in an integer type, with fewer elements than features (the low-rank case as soon as
+    # every element is active) and with as many
+    out.append(dict(basis=np.eye(d, dtype=int)[:d - 1], n_basis=None))
+    out.append(dict(basis=np.eye(d, dtype=np.int32), n_basis=None))
   if name == 'SCML_Supervised':
     out.append(dict(basis='lda'))
     out.append(dict(basis='triplet_diffs'))
